@@ -614,17 +614,12 @@ Definition timely (s : st) : bool :=
 Definition destroy_ok (s : st) : bool :=
   negb (is_some (connection s)) || negb (existsb is_kfunctor (pending s)).
 
-(* loop order: the poller reports an event of a connection only in an iteration after the one in which the
-   Connector queued resetChannel (that functor runs at the end of its own iteration) *)
-Definition loop_order (s : st) : bool := negb (existsb is_FReset (pending s)).
-
 Definition contract (s : st) (o : op) : bool :=
   match o with
   | Connect | XConnectFlags => idle s
   | TimerFire => timely s
   | Destroy => destroy_ok s
   | XDestroyRead | XDestroyRest | XDestroyInWrite => false        (* the theorems are about destruction on the loop thread *)
-  | Down => loop_order s
   | _ => true
   end.
 (* what the property text allows (used by the generator; the difference to `contract` are the findings) *)
@@ -632,6 +627,5 @@ Definition text_contract (s : st) (o : op) : bool :=
   match o with
   | Connect | XConnectFlags => text_idle s
   | TimerFire => timely s
-  | Down => loop_order s
   | _ => true
   end.
